@@ -3906,6 +3906,8 @@ class mulgrid(object):
         else:
             if isinstance(columns[0], str):
                 columns = [self.column[col] for col in columns]
+            # (ignore any repeated columns)
+            columns = [col for i, col in enumerate(columns) if col not in columns[:i]]
         connections = set([])
         sidenodes = {}
         chars = uniqstring(chars)
